@@ -9,7 +9,7 @@ for line in open('/verif/properties.jsonl'):
 wt = f"/tmp/wt-{pid}"
 print(f"""You are working alone in a scratch git worktree of the open-source project mutagen (a Go file-synchronization and network-forwarding tool) at {wt}. Work ONLY inside {wt} (never touch /repo or /verif, and do not read anything under /verif).
 
-Environment: every shell call needs `export GOFLAGS=-mod=mod GOPROXY=off GOSUMDB=off` (there is no network; all modules are cached). Use the default `go` command from inside {wt} (it selects the right toolchain offline). The code you care about is under {wt}/pkg. Files/lines mentioning the build tag `verif` or the package pkg/verif are inert instrumentation hooks: leave them alone.
+Environment: every shell call needs `export GOFLAGS=-mod=mod GOPROXY=off; unset GOSUMDB GOTOOLCHAIN` (there is no network; all modules and the go1.25.0 toolchain are cached; setting GOSUMDB=off or GOTOOLCHAIN=local breaks the toolchain selection). Use the default `go` command from inside {wt}. The code you care about is under {wt}/pkg. Files/lines mentioning the build tag `verif` or the package pkg/verif are inert instrumentation hooks: leave them alone.
 
 Here is a semantic property of mutagen that currently holds:
 
